@@ -774,12 +774,15 @@ func setInBasedOperators(r *RulesBasedSamplerCondition, condition string) error 
 		return fmt.Errorf("cannot use %s operator with boolean datatype", condition)
 	}
 
+	// a field that is not present never satisfies in / not-in
 	switch condition {
 	case In:
-		r.Matches = matches
+		r.Matches = func(spanValue any, exists bool) bool {
+			return exists && matches(spanValue, exists)
+		}
 	case NotIn:
 		r.Matches = func(spanValue any, exists bool) bool {
-			return !matches(spanValue, exists)
+			return exists && !matches(spanValue, exists)
 		}
 	}
 
